@@ -257,7 +257,7 @@ func (fr *frame) execInstr(in ssa.Instruction, st *State) {
 		switch u := under(x.X.Type()).(type) {
 		case *types.Slice:
 			fr.safety(st, "index", operandName(x), And(le(IntLit(0), i), lt(i, SLen(b))), x.Pos())
-			fr.setVal(x, Idx(SArr(b), add(SOff(b), i)))
+			fr.setVal(x, Elem(b, i))
 		case *types.Pointer:
 			arr := under(u.Elem()).(*types.Array)
 			fr.nilCheck(st, b, operandName(x.X), x.Pos())
